@@ -37,6 +37,10 @@ fn main() {
     }
     let seed = args.seed;
     let run_case = |i: u64, r: &mut Report| {
+        if lane_poisoned() {
+            r.inconclusive("receiver threads did not exit after the sender was dropped (left behind); the remaining histories of this lane were skipped");
+            return;
+        }
         let plan = gen_plan(seed, 6, i, &cfg);
         let h = run_plan(&plan, cfg.delays);
         r.eval();
